@@ -1,5 +1,6 @@
 """C10: a search without unguarded recursion always terminates."""
 from props.core import *
+from props.common import E2, E3, E4, MB_TEXTS
 
 ASSUMPTIONS = ["budget: 10 s wall clock per program (all texts) against a model bound of 5000 VM steps per attempt; a case where the model itself exceeds its bound is 'both expensive' and not counted",
                "process loops are outside the property"]
@@ -45,6 +46,10 @@ def run(ctx):
             if not quick or body in NULLABLE[:4]:
                 extra.append({"src": "find all {'a' {%s} = t maybe t} = s maybe s" % loop, "texts": ftexts})
                 extra.append({"src": "set p to pattern %s\nset q to pattern 'a' p\nfind all q p" % loop, "texts": ftexts})
+    # a loop iteration that consumed a character of several bytes HAS consumed: the zero-width guard compares byte offsets
+    for src in ("'%s' at least 0 maybe 'a'" % E2, "at least 0 maybe '%s'" % E2, "at least 0 (maybe any)", "at least 0 (line end or any)", "'%s' at least 0 (maybe 'a') fewest 'y'" % E2,
+                "at least 0 (maybe '%s' maybe 'a')" % E3, "at least 1 (at least 0 '%s')" % E2, "{'%s' at least 0 (maybe 'a')} = s" % E2, "at least 0 (at least 0 (not 'a'))", "at least 0 (maybe (in '%s', 'a'))" % E2):
+        extra.append({"src": "find all " + src, "texts": MB_TEXTS})
     cases, gres, dis, stats = run_generated(ctx, 100 if quick else 15000, extra=extra, spec=False)
     ctx.coverage["rule"] = ("all programs up to nesting depth %d over nullable bodies (maybe, at least 0, anchors, empty group, negated anchors, fewest variants) "
                             "x all texts over {a,\\n} up to length %d; the implementation must return within the budget whenever the model does; "
